@@ -1132,6 +1132,7 @@ pub(crate) fn rename_defined_name_in_node(
     name: &str,
     scope: Option<u32>,
     new_name: &str,
+    rename_calls: bool,
 ) {
     match node {
         // Rename
@@ -1142,45 +1143,50 @@ pub(crate) fn rename_defined_name_in_node(
         }
         // Go next level
         Node::OpRangeKind { left, right } => {
-            rename_defined_name_in_node(left, name, scope, new_name);
-            rename_defined_name_in_node(right, name, scope, new_name);
+            rename_defined_name_in_node(left, name, scope, new_name, rename_calls);
+            rename_defined_name_in_node(right, name, scope, new_name, rename_calls);
         }
         Node::OpConcatenateKind { left, right } => {
-            rename_defined_name_in_node(left, name, scope, new_name);
-            rename_defined_name_in_node(right, name, scope, new_name);
+            rename_defined_name_in_node(left, name, scope, new_name, rename_calls);
+            rename_defined_name_in_node(right, name, scope, new_name, rename_calls);
         }
         Node::OpSumKind {
             kind: _,
             left,
             right,
         } => {
-            rename_defined_name_in_node(left, name, scope, new_name);
-            rename_defined_name_in_node(right, name, scope, new_name);
+            rename_defined_name_in_node(left, name, scope, new_name, rename_calls);
+            rename_defined_name_in_node(right, name, scope, new_name, rename_calls);
         }
         Node::OpProductKind {
             kind: _,
             left,
             right,
         } => {
-            rename_defined_name_in_node(left, name, scope, new_name);
-            rename_defined_name_in_node(right, name, scope, new_name);
+            rename_defined_name_in_node(left, name, scope, new_name, rename_calls);
+            rename_defined_name_in_node(right, name, scope, new_name, rename_calls);
         }
         Node::OpPowerKind { left, right } => {
-            rename_defined_name_in_node(left, name, scope, new_name);
-            rename_defined_name_in_node(right, name, scope, new_name);
+            rename_defined_name_in_node(left, name, scope, new_name, rename_calls);
+            rename_defined_name_in_node(right, name, scope, new_name, rename_calls);
         }
         Node::FunctionKind { kind: _, args } => {
             for arg in args {
-                rename_defined_name_in_node(arg, name, scope, new_name);
+                rename_defined_name_in_node(arg, name, scope, new_name, rename_calls);
             }
         }
         Node::NamedFunctionKind {
-            name: _,
+            name: function_name,
             args,
             id: _,
         } => {
+            // A call of a name defined as a LAMBDA: `rename_calls` tells whether such a call,
+            // on the sheet this formula lives in, resolves to the name being renamed
+            if rename_calls && name.to_lowercase() == function_name.to_lowercase() {
+                *function_name = new_name.to_string();
+            }
             for arg in args {
-                rename_defined_name_in_node(arg, name, scope, new_name);
+                rename_defined_name_in_node(arg, name, scope, new_name, rename_calls);
             }
         }
         Node::CompareKind {
@@ -1188,20 +1194,20 @@ pub(crate) fn rename_defined_name_in_node(
             left,
             right,
         } => {
-            rename_defined_name_in_node(left, name, scope, new_name);
-            rename_defined_name_in_node(right, name, scope, new_name);
+            rename_defined_name_in_node(left, name, scope, new_name, rename_calls);
+            rename_defined_name_in_node(right, name, scope, new_name, rename_calls);
         }
         Node::UnaryKind { kind: _, right } => {
-            rename_defined_name_in_node(right, name, scope, new_name);
+            rename_defined_name_in_node(right, name, scope, new_name, rename_calls);
         }
         Node::ImplicitIntersection {
             automatic: _,
             child,
         } => {
-            rename_defined_name_in_node(child, name, scope, new_name);
+            rename_defined_name_in_node(child, name, scope, new_name, rename_calls);
         }
         Node::SpillRangeOperator { child } => {
-            rename_defined_name_in_node(child, name, scope, new_name);
+            rename_defined_name_in_node(child, name, scope, new_name, rename_calls);
         }
         // Do nothing
         Node::BooleanKind(_) => {}
@@ -1221,12 +1227,12 @@ pub(crate) fn rename_defined_name_in_node(
             parameters: _,
             body,
         } => {
-            rename_defined_name_in_node(body, name, scope, new_name);
+            rename_defined_name_in_node(body, name, scope, new_name, rename_calls);
         }
         Node::LambdaCallKind { lambda, args } => {
-            rename_defined_name_in_node(lambda, name, scope, new_name);
+            rename_defined_name_in_node(lambda, name, scope, new_name, rename_calls);
             for arg in args {
-                rename_defined_name_in_node(arg, name, scope, new_name);
+                rename_defined_name_in_node(arg, name, scope, new_name, rename_calls);
             }
         }
     }
